@@ -30,6 +30,7 @@ TYPE_NAME = {"String": "string", "Integer": "integer", "Number": "number", "Bool
 CLASS_KW = ["default", "const", "enum", "required", "minProperties", "maxProperties", "patternProperties",
             "additionalProperties", "propertyNames", "dependencies", "description"]
 
+KEYWORD_PY_NAMES = ["description", "required", "default", "enum", "const", "dependencies", "properties"]
 PY_NAMES = ["a", "b", "c", "d", "foo", "bar", "x1", "name_"]
 RENAMES = {"class_": "class", "a_b": "a-b", "for_": "for", "first": "1st", "e_acute": "é", "my_name": "my name",
            "dollar": "$x", "type_": "type", "blank": ""}
@@ -40,7 +41,7 @@ class Gen:
 
     def __init__(self, rng, max_depth=3, classes=True, share=0.15, renames=0.3, defaults=0.15,
                  explicit_required=0.3, inheritance=0.25, formats=False, lookalike_literals=True,
-                 shared_props=0.0, pattern_overlap=0.0):
+                 shared_props=0.0, pattern_overlap=0.0, keyword_names=0.0):
         self.rng = rng
         self.max_depth = max_depth
         self.classes = classes
@@ -52,6 +53,8 @@ class Gen:
         self.formats = formats
         self.lookalike_literals = lookalike_literals
         self.shared_props = shared_props
+        # property names that are also names of class keywords / attributes of every model class
+        self.keyword_names = keyword_names
         self.pattern_overlap = pattern_overlap
         self.next_id = 0
         self.class_count = 0
@@ -175,6 +178,8 @@ class Gen:
         pool = list(PY_NAMES)
         if rng.random() < self.renames * 2:
             pool += list(RENAMES)
+        if rng.random() < self.keyword_names:
+            pool = KEYWORD_PY_NAMES + rng.sample(pool, k=2)
         return rng.sample(pool, k=min(count, len(pool)))
 
     def object_kw(self, kw, depth, names):
